@@ -1,7 +1,9 @@
 #!/bin/bash
 # applies every behaviour-preserving refactoring to a scratch copy of /repo and runs all property checks: any report is a false alarm
 set -u
-cd /verif && ./build.sh || exit 2
+# MXJCHECK=<binary> runs with a frozen copy of the checker (so that the checker can be rebuilt while a long battery runs)
+if [ -z "${MXJCHECK:-}" ]; then cd /verif && ./build.sh || exit 2; fi
+export MXJCHECK=${MXJCHECK:-/verif/bin/mxjcheck}
 one() {
   S=${1%/}; N=$(basename $S)
   D=$(mktemp -d /tmp/mxjref.XXXXXX)
@@ -10,7 +12,7 @@ one() {
   if ! (cd $D && GOFLAGS=-mod=mod GOPROXY=off GOSUMDB=off GOTOOLCHAIN=local go build ./ ./j2x ./x2j ./x2j-wrapper >/dev/null 2>&1); then echo "$N DOES-NOT-BUILD"; rm -rf $D; return; fi
   OUT=""
   for P in $(seq -w 1 20); do
-    R=$(/verif/bin/mxjcheck -property C$P -repo $D -verif /verif -no-evidence 2>/dev/null | grep -E '^(VIOLATED|UNDECIDED|CHECKER)' | awk '{print $2":"$3}' | sort -u | tr '\n' ',' )
+    R=$($MXJCHECK -property C$P -repo $D -verif /verif -no-evidence 2>/dev/null | grep -E '^(VIOLATED|UNDECIDED|CHECKER)' | awk '{print $2":"$3}' | sort -u | tr '\n' ',' )
     [ -n "$R" ] && OUT="$OUT C$P:${R%,}"
   done
   echo "$N =>${OUT:- silent}"
